@@ -8,6 +8,7 @@ pub mod c14;
 pub mod c15;
 pub mod c18;
 pub mod c19;
+pub mod c20;
 pub mod ops;
 pub mod c13;
 pub mod gen;
@@ -15,7 +16,7 @@ pub mod gen;
 use crate::prop::Prop;
 
 pub fn all() -> Vec<&'static dyn Prop> {
-    vec![&c03::C03, &c04::C04, &c04::C05, &c07::C07, &c10::C10, &c11::C11, &c12::C12, &c13::C13, &c14::C14, &c15::C15, &c18::C18, &c19::C19]
+    vec![&c03::C03, &c04::C04, &c04::C05, &c07::C07, &c10::C10, &c11::C11, &c12::C12, &c13::C13, &c14::C14, &c15::C15, &c18::C18, &c19::C19, &c20::C20]
 }
 
 pub fn by_id(id: &str) -> Option<&'static dyn Prop> {
